@@ -7,6 +7,7 @@ import (
 	"fmt"
 	"os"
 	"os/exec"
+	"os/signal"
 	"path/filepath"
 	"sort"
 	"strconv"
@@ -30,6 +31,7 @@ import (
 func init() {
 	Register("C16", "exploration", checkC16)
 	Workers["fswriter"] = fsWriterWorker
+	Workers["fswriter-limit"] = fsLimitedWriterWorker
 	Workers["c16race"] = c16RaceWorker
 }
 
@@ -48,7 +50,7 @@ func c16RaceWorker(args []string) int {
 		wg.Add(1)
 		go func(wi int) {
 			defer wg.Done()
-			st, err := file_storage.NewFileStorage(path, lock)
+			st, err := openBoard(path, lock)
 			if err != nil {
 				return
 			}
@@ -160,7 +162,7 @@ func fsWriterWorker(args []string) int {
 	client, _ := strconv.Atoi(args[2])
 	count, _ := strconv.Atoi(args[3])
 	seed, _ := strconv.ParseUint(args[5], 10, 64)
-	st, err := file_storage.NewFileStorage(args[0], args[1])
+	st, err := openBoard(args[0], args[1])
 	if err != nil {
 		fmt.Fprintln(Out, `{"err":"open"}`)
 		return 2
@@ -256,7 +258,7 @@ func judgeLogStructure(c *Ctx, path, lock string, ops []fsOp, wit map[string]int
 			sent[o.Tag] = o
 		}
 	}
-	fresh, err := file_storage.NewFileStorage(path, lock)
+	fresh, err := openBoard(path, lock)
 	if err != nil {
 		c.Inconclusive("fresh handle: %v", err)
 		return
@@ -339,7 +341,7 @@ func judgeLogStructure(c *Ctx, path, lock string, ops []fsOp, wit map[string]int
 			// read offsets beyond the end of the log, up to the largest one: nothing is "from there onward"
 			from = []uint64{uint64(len(all)) + 1, uint64(len(all)) + 1000, 1 << 31, 1 << 32, 1<<63 - 1, 1 << 63, 1<<63 + 3, 1<<64 - 1}[(int(r.Intn(8))+k)%8]
 		}
-		h, _ := file_storage.NewFileStorage(path, lock)
+		h, _ := openBoard(path, lock)
 		ign := map[int]bool{}
 		// the ignore lists are built the way an operator builds them: by one or several calls, each by
 		// message id or by offset, with repeats and with offsets beyond the end of the log
@@ -419,7 +421,7 @@ func judgeLogStructure(c *Ctx, path, lock string, ops []fsOp, wit map[string]int
 		if f, err := os.OpenFile(path, os.O_APPEND|os.O_WRONLY, 0o600); err == nil {
 			_, _ = f.WriteString(bare + "\n")
 			f.Close()
-			h, _ := file_storage.NewFileStorage(path, lock)
+			h, _ := openBoard(path, lock)
 			together, err1 := h.GetMessages(uint64(len(all) - 1))
 			alone, err2 := h.GetMessages(uint64(len(all)))
 			h.Close()
@@ -441,7 +443,7 @@ func judgeLogStructure(c *Ctx, path, lock string, ops []fsOp, wit map[string]int
 }
 
 func checkC16(c *Ctx) {
-	c.Rule = "many short concurrent histories on the real FileStorage: W in {1,2,4,8,16} writer goroutines with separate handles plus readers, and W separate OS processes (verifd worker fswriter, CLOCK_MONOTONIC timestamps); message sizes empty, 10 B, 4 KiB, JSON line just below/above 64 KiB, 200 KiB, line just below 1 MiB; after quiescence a structural check through a fresh handle and the raw file (exactly-once, offset == position, earlier reads are runs of the final log, suffix reads, ignore lists by id and offset) and a porcupine linearizability check of the recorded history against the sequential log model. Ignore lists are built by 1-4 IgnoreMessages calls mixing ids and offsets. Read offsets beyond the end of the log, up to 2^64-1, must yield nothing. distinct = distinct observed interleavings (order of appends/reads by call time) over the (mode, writers, size class) configurations"
+	c.Rule = "many short concurrent histories on the real FileStorage: W in {1,2,4,8,16} writer goroutines with separate handles plus readers, and W separate OS processes (verifd worker fswriter, CLOCK_MONOTONIC timestamps; some relying on the default lock file, each with a TMPDIR of its own); message sizes empty, 10 B, 4 KiB, JSON line just below/above 64 KiB, 200 KiB, line just below 1 MiB; after quiescence a structural check through a fresh handle and the raw file (exactly-once, offset == position, earlier reads are runs of the final log, suffix reads, ignore lists by id and offset) and a porcupine linearizability check of the recorded history against the sequential log model. Ignore lists are built by 1-4 IgnoreMessages calls mixing ids and offsets. Read offsets beyond the end of the log, up to 2^64-1, must yield nothing. A writer process whose board file cannot grow beyond a limit: every acknowledged append stands in the file. distinct = distinct observed interleavings (order of appends/reads by call time) over the (mode, writers, size class) configurations"
 	c.Assumptions = []string{"porcupine v1.3.0 as linearizability checker (60 s cap => inconclusive)", "timestamps from CLOCK_MONOTONIC, shared by all processes of the machine"}
 	type cfg struct {
 		mode    string
@@ -465,6 +467,11 @@ func checkC16(c *Ctx) {
 			cfgs = append(cfgs, cfg{"processes", wn, "mixed", 8, rep})
 		}
 		cfgs = append(cfgs, cfg{"processes", 3, "64KiB+1", 3, rep})
+		if rep%4 == 0 {
+			// writer processes that rely on the board's default lock file, each started with a TMPDIR of its own
+			// (separate users, containers, systemd PrivateTmp-less units with TMPDIR set): still one board, one lock
+			cfgs = append(cfgs, cfg{"processes-default-lock", 4, "10B", 40, rep})
+		}
 	}
 	root := world.WorkRoot()
 	_ = os.MkdirAll(root, 0o755)
@@ -478,6 +485,9 @@ func checkC16(c *Ctx) {
 		cf := cfgs[i]
 		path := filepath.Join(base, fmt.Sprintf("board-%d", i))
 		lock := filepath.Join(base, fmt.Sprintf("lock-%d", i))
+		if cf.mode == "processes-default-lock" {
+			lock = ""
+		}
 		seed := c.Seed*1009 + uint64(i)
 		wit := map[string]interface{}{"mode": cf.mode, "writers": cf.writers, "size_class": cf.class, "per_writer": cf.perW, "case_seed": seed}
 		var ops []fsOp
@@ -488,7 +498,7 @@ func checkC16(c *Ctx) {
 				wg.Add(1)
 				go func(wi int) {
 					defer wg.Done()
-					st, err := file_storage.NewFileStorage(path, lock)
+					st, err := openBoard(path, lock)
 					if err != nil {
 						return
 					}
@@ -516,7 +526,7 @@ func checkC16(c *Ctx) {
 			wg.Add(1)
 			go func() {
 				defer wg.Done()
-				st, err := file_storage.NewFileStorage(path, lock)
+				st, err := openBoard(path, lock)
 				if err != nil {
 					return
 				}
@@ -539,6 +549,11 @@ func checkC16(c *Ctx) {
 					defer wg.Done()
 					cmd := exec.Command(exe, "worker", "fswriter", path, lock, strconv.Itoa(wi), strconv.Itoa(cf.perW), cf.class, strconv.FormatUint(seed, 10))
 					cmd.WaitDelay = 10 * time.Second // a child that has exited never keeps this process waiting on its pipes
+					if lock == "" {
+						tmp := filepath.Join(base, fmt.Sprintf("tmp-%d-%d", i, wi))
+						_ = os.MkdirAll(tmp, 0o755)
+						cmd.Env = append(os.Environ(), "TMPDIR="+tmp)
+					}
 					out, err := cmd.Output()
 					if err != nil {
 						c.Inconclusive("writer process: %v", err)
@@ -595,6 +610,7 @@ func checkC16(c *Ctx) {
 		_ = os.Remove(path)
 	})
 	c16ExactLines(c, base)
+	c16FullBoard(c, base)
 	if c.Thorough() {
 		if bin := os.Getenv("VERIF_RACE_BIN"); bin != "" {
 			rdir := filepath.Join(base, "race")
@@ -638,7 +654,7 @@ func c16ExactLines(c *Ctx, base string) {
 		path := filepath.Join(base, fmt.Sprintf("exact-%d", i))
 		lock := filepath.Join(base, fmt.Sprintf("exact-lock-%d", i))
 		wit := map[string]interface{}{"family": "exact line length", "line_bytes": target}
-		st, err := file_storage.NewFileStorage(path, lock)
+		st, err := openBoard(path, lock)
 		if err != nil {
 			c.Inconclusive("exact lines: %v", err)
 			return
@@ -692,4 +708,101 @@ func c16ExactLines(c *Ctx, base string) {
 		judgeLogStructure(c, path, lock, ops, wit)
 		_ = os.Remove(path)
 	})
+}
+
+// fsLimitedWriterWorker: a writer process whose board file cannot grow beyond a limit (RLIMIT_FSIZE, the
+// signal ignored: the write call returns an error, as on a full disk or an exhausted quota).
+// args: path lock limit count seed
+func fsLimitedWriterWorker(args []string) int {
+	if len(args) < 5 {
+		return 2
+	}
+	limit, _ := strconv.ParseUint(args[2], 10, 64)
+	count, _ := strconv.Atoi(args[3])
+	seed, _ := strconv.ParseUint(args[4], 10, 64)
+	signal.Ignore(syscall.SIGXFSZ)
+	if err := syscall.Setrlimit(syscall.RLIMIT_FSIZE, &syscall.Rlimit{Cur: limit, Max: limit}); err != nil {
+		fmt.Fprintln(Out, `{"err":"rlimit"}`)
+		return 2
+	}
+	st, err := file_storage.NewFileStorage(args[0], args[1])
+	if err != nil {
+		fmt.Fprintln(Out, `{"err":"open"}`)
+		return 2
+	}
+	r := sched.Derive(seed, 77)
+	enc := json.NewEncoder(Out)
+	for i := 0; i < count; i++ {
+		class := []string{"10B", "10B", "empty", "4KiB"}[r.Intn(4)]
+		op := fsAppend(st, 0, fmt.Sprintf("lim-%d", i), dataForClass(class, r))
+		_ = enc.Encode(op)
+	}
+	return 0
+}
+
+// c16FullBoard: appends to a board file that cannot grow any further. "Exactly once" includes the converse of
+// an acknowledgement: an append that reported success stands in the file (as a complete line); the append
+// that did not fit reported an error. (What a reader makes of the torn tail is not judged here.)
+func c16FullBoard(c *Ctx, base string) {
+	exe, _ := os.Executable()
+	for rep := 0; rep < c.Pick(4, 16); rep++ {
+		seed := c.Seed*311 + uint64(rep)
+		r := sched.Derive(seed, 16)
+		dir := filepath.Join(base, fmt.Sprintf("full%d", rep))
+		_ = os.MkdirAll(dir, 0o755)
+		path, lock := filepath.Join(dir, "board"), filepath.Join(dir, "lock")
+		limit := 1500 + r.Intn(9000)
+		wit := map[string]interface{}{"family": "board file that cannot grow beyond a limit (RLIMIT_FSIZE in the writer process)", "limit_bytes": limit, "case_seed": seed}
+		cmd := exec.Command(exe, "worker", "fswriter-limit", path, lock, strconv.Itoa(limit), "60", strconv.FormatUint(seed, 10))
+		cmd.WaitDelay = 10 * time.Second
+		out, err := cmd.Output()
+		if err != nil {
+			c.Inconclusive("limited writer process: %v", err)
+			continue
+		}
+		var ops []fsOp
+		sc := bufio.NewScanner(bytes.NewReader(out))
+		sc.Buffer(make([]byte, 1<<20), 1<<26)
+		for sc.Scan() {
+			var op fsOp
+			if json.Unmarshal(sc.Bytes(), &op) == nil && op.Kind != "" {
+				ops = append(ops, op)
+			}
+		}
+		raw, _ := os.ReadFile(path)
+		inFile := map[string]int{}
+		for _, line := range bytes.Split(raw, []byte("\n")) {
+			var m storage.Message
+			if len(line) > 0 && json.Unmarshal(line, &m) == nil {
+				inFile[m.SenderAddr]++
+			}
+		}
+		acked, refused := 0, 0
+		for _, op := range ops {
+			if op.Err != "" {
+				refused++
+				continue
+			}
+			acked++
+			if inFile[op.Tag] != 1 {
+				c.Violate("C16/acknowledged-append-not-in-the-log", fmt.Sprintf("append %s reported success (offset %d) but stands %d times as a complete line in the board file (%d bytes, limit %d)", op.Tag, op.Off, inFile[op.Tag], len(raw), limit), wit)
+				break
+			}
+		}
+		c.Eval(1)
+		c.Add("appends_acknowledged_on_a_board_that_filled_up", acked)
+		c.Add("appends_refused_on_a_board_that_filled_up", refused)
+		c.Distinct(fmt.Sprintf("full-board|acked=%d", acked))
+		if refused == 0 {
+			c.Inconclusive("full-board: the limit of %d bytes was never reached (%d appends)", limit, acked)
+		}
+	}
+}
+
+// openBoard opens the board file with the given lock file, or with the library's default lock ("").
+func openBoard(path, lock string) (storage.Storage, error) {
+	if lock == "" {
+		return file_storage.NewFileStorage(path)
+	}
+	return file_storage.NewFileStorage(path, lock)
 }
